@@ -376,13 +376,13 @@ class Formatter:
     def _exists(self, value, prec):
         if is_data(value) and "from" in value:
             return f"EXISTS {self.dispatch(value, precedence['exists'])}"
-        sql = f"{self.dispatch(value, precedence['is'])} IS NOT NULL"
+        sql = f"{self.dispatch(value, precedence['is'] - 0.5)} IS NOT NULL"
         if prec < precedence["is"]:
             return f"({sql})"
         return sql
 
     def _missing(self, value, prec):
-        sql = "{0} IS NULL".format(self.dispatch(value, precedence["is"]))
+        sql = "{0} IS NULL".format(self.dispatch(value, precedence["is"] - 0.5))
         if prec < precedence["is"]:
             return f"({sql})"
         return sql
@@ -425,7 +425,7 @@ class Formatter:
             set = {"literal": listwrap(set["literal"])}
         else:
             set = listwrap(set)
-        sql = self.dispatch(member, precedence["in"]) + f" {sql_op} " + self.dispatch(set, precedence["in"])
+        sql = self.dispatch(member, precedence["in"] - 0.5) + f" {sql_op} " + self.dispatch(set, precedence["in"])
         if prec < precedence["in"]:
             sql = f"({sql})"
         return sql
@@ -511,9 +511,9 @@ class Formatter:
 
     def _between(self, json, prec):
         sql = "{0} BETWEEN {1} AND {2}".format(
-            self.dispatch(json[0], precedence["between"]),
-            self.dispatch(json[1], precedence["between"]),
-            self.dispatch(json[2], precedence["between"]),
+            self.dispatch(json[0], precedence["between"] - 0.5),
+            self.dispatch(json[1], precedence["between"] - 0.5),
+            self.dispatch(json[2], precedence["between"] - 0.5),
         )
         if prec < precedence["between"]:
             return f"({sql})"
@@ -538,9 +538,9 @@ class Formatter:
 
     def _not_between(self, json, prec):
         sql = "{0} NOT BETWEEN {1} AND {2}".format(
-            self.dispatch(json[0], precedence["between"]),
-            self.dispatch(json[1], precedence["between"]),
-            self.dispatch(json[2], precedence["between"]),
+            self.dispatch(json[0], precedence["between"] - 0.5),
+            self.dispatch(json[1], precedence["between"] - 0.5),
+            self.dispatch(json[2], precedence["between"] - 0.5),
         )
         if prec < precedence["between"]:
             return f"({sql})"
